@@ -209,6 +209,11 @@ class HeaderRxSub(Sub):
     def run(self, case):
         drv = B.Partner(case)
         max_cycles = 400 + 30 * len(case["ops"]) + 20 * len(case.get("noise", []))
+        # every header costs four source words (LGOOD + LCRD): a sparse source.ready pattern stretches the run
+        # accordingly -- the drain bound is a liveness budget of the harness and must never undercut a slow but legal sink
+        sp = list(case.get("sready") or [1])
+        if 0 < sum(sp) < len(sp):
+            max_cycles += (6 * len(case["ops"]) + 20) * -(-len(sp) // sum(sp))
         trace = self.h.run_driver(drv, max_cycles)
         log = drv.log[:len(trace)]
         n = len(trace)
